@@ -582,9 +582,11 @@ def build_request(version, ops, ids=None, max_size=None, asynchronous=None, erro
 UTF8_MARKER = '~kvU8~'
 
 
-def encode_request(req, version):
+def encode_request(req, version, substitute=True):
     s = utils.BytearrayStream()
     req.write(s, kmip_version=KMIPV[tuple(version)])
+    if not substitute:
+        return bytes(s.buffer)
     return bytes(s.buffer).replace(UTF8_MARKER.encode(), u'\u00e9\u00e9\u00e9'.encode('utf-8'))
 
 
